@@ -35,30 +35,42 @@ Section TimeoutRounds.
   Hypothesis Hh2 : Bs + 1 < U64.
   Hypothesis Hle : V + 1 <= Bs.
   Hypothesis Hsb : forall m, In m (g_soup s) -> msg_view (m_msg m) <= Bs.
+  (* every honest node is in view V and has not voted in it: it waits for a proposal or has
+     already timed out *)
   Hypothesis Hal : forall k, hon k = true ->
-    up s k /\ hview s k = V /\ r_phase (n_live (g_node s k)) = Prepare /\ n <= r_store_next (n_live (g_node s k)).
+    up s k /\ hview s k = V /\ r_phase (n_live (g_node s k)) <> PCommit /\ n <= r_store_next (n_live (g_node s k)).
   (* no verifying proposal for view V is on the network *)
   Hypothesis HnoP : forall m p' j' mv', In m (g_soup s) -> m_msg m = MProposal p' j' ->
     justification_view (E := unit) true j' = Ok mv' -> vnum mv' = V ->
     justification_verify (p_g P) (p_e P) (p_C P) j' = Ok tt -> False.
+  (* the honest commit votes on the network are for earlier views *)
+  Hypothesis HGC : forall m c, In m (g_soup s) -> m_sig_ok m = true -> hon (m_key m) = true -> m_msg m = MCommit c ->
+    vnum (cview c) < V.
+  (* the honest timeout votes on the network for view V or later are for view V and verify *)
+  Hypothesis HGT : forall m t0, In m (g_soup s) -> m_sig_ok m = true -> hon (m_key m) = true -> m_msg m = MTimeout t0 ->
+    V <= vnum (tview t0) -> vnum (tview t0) = V /\ timeout_verify (p_g P) (p_e P) (p_C P) t0 = Ok tt.
+  (* the honest nodes that have timed out do not, together with the Byzantine validators, make a
+     timeout certificate for view V (or later) *)
+  Hypothesis HnoT : forall t, tqc_verify (p_g P) (p_e P) (p_C P) t = Ok tt -> kt hon (g_soup s) t -> vnum (tqview t) < V.
 
   Let Hfirst : 0 <= p_first P := proj2 (proj2 Henv).
   Notation Sg := (g_soup s).
 
-  Lemma ts_pos k : hon k = true -> dview s k = V /\ dphase s k = Prepare.
+  Lemma ts_pos k : hon k = true -> dview s k = V.
   Proof.
     intros Hk. destruct (Hal k Hk) as (Hu & Hv & Hp & _).
-    rewrite (up_dview P HP s k Hr Hk Hu), (up_dphase P HP s k Hr Hk Hu). auto.
+    rewrite (up_dview P HP s k Hr Hk Hu). auto.
   Qed.
   Lemma tHB_s k : hon k = true -> dview s k <= V.
-  Proof. intros Hk. destruct (ts_pos k Hk) as [E _]. lia. Qed.
+  Proof. intros Hk. pose proof (ts_pos k Hk). lia. Qed.
   Lemma tHcq_s q : gq (cfg 0) hon Sg q -> vnum (cview (qmsg q)) < V.
-  Proof. apply (no_cqc_at P HP s q V Hr). intros k Hk. right. apply ts_pos. exact Hk. Qed.
-  Lemma tHtq_s t : tqc_verify (p_g P) (p_e P) (p_C P) t = Ok tt -> kt hon Sg t -> vnum (tqview t) < V.
   Proof.
-    apply (no_tqc_at P HP s t V Hr). intros k Hk. right. destruct (ts_pos k Hk) as [E1 E2].
-    split; [exact E1|rewrite E2; discriminate].
+    intros [Hv Hkq]. destruct (cqc_honest_signer P HP q Hv) as (h & Hh & Hin).
+    pose proof (Hkq h (qmsg q) Hin Hh) as Hsent.
+    exact (HGC {| m_key := h; m_sig_ok := true; m_msg := MCommit (qmsg q) |} (qmsg q) Hsent eq_refl Hh eq_refl).
   Qed.
+  Lemma tHtq_s t : tqc_verify (p_g P) (p_e P) (p_C P) t = Ok tt -> kt hon Sg t -> vnum (tqview t) < V.
+  Proof. exact (HnoT t). Qed.
 
   (* honest commit votes on the network are for earlier views; honest timeout votes for view V or
      later are for view V and verify *)
@@ -77,25 +89,21 @@ Section TimeoutRounds.
   Proof.
     split; [|split].
     - split; [apply RInv_start; assumption|]. split; [intros k Hk; apply (Hal k Hk)|exact Hsb].
-    - intros m c Hin Hsg Hh Em. rewrite (eta_msg m Hsg), Em in Hin.
-      exact (no_commit_msg_at P HP s (m_key m) c V Hr (fun k Hk => or_intror (ts_pos k Hk)) Hh Hin).
-    - intros m t0 Hin Hsg Hh Em HVt. exfalso. rewrite (eta_msg m Hsg), Em in Hin.
-      assert (H : vnum (tview t0) < V).
-      { apply (no_timeout_msg_at P HP s (m_key m) t0 V Hr); [|exact Hh|exact Hin].
-        intros k Hk. right. destruct (ts_pos k Hk) as [E1 E2]. split; [exact E1|rewrite E2; discriminate]. }
-      lia.
+    - exact HGC.
+    - exact HGT.
   Qed.
 
   Definition NPW (k : Z) (soup : list sgmsg) (nd : node) : Prop :=
-    n_alive nd = true /\ r_view (n_live nd) = V /\ r_phase (n_live nd) = Prepare /\
-    n <= r_store_next (n_live nd) /\ TV hon Sg (n_live nd).
+    n_alive nd = true /\ r_view (n_live nd) = V /\ r_phase (n_live nd) <> PCommit /\
+    n <= r_store_next (n_live nd) /\ TV hon Sg (n_live nd) /\ TB (cfg k) (n_live nd).
   Lemma NPW_mono : mono NPW.
   Proof. intros k soup soup' nd _ H. exact H. Qed.
 
   Lemma NPW_start k : hon k = true -> lifted NPW k s.
   Proof.
     intros Hk. destruct (Hal k Hk) as (Hu & Hv & Hp & Hn). unfold lifted, NPW.
-    repeat split; auto. apply preach_TV; assumption.
+    split; [exact Hu|]. split; [exact Hv|]. split; [exact Hp|]. split; [exact Hn|].
+    split; [apply preach_TV; assumption|apply preach_TB; assumption].
   Qed.
 
   Lemma GAT_same t t' : GAT t -> NSI P s Bs t' -> g_soup t' = g_soup t -> GAT t'.
@@ -104,7 +112,7 @@ Section TimeoutRounds.
   Lemma deliverW i t k : (i < length Sg)%nat -> hon k = true -> GAT t -> lifted ((fun _ => NPW) i) k t ->
     GAT (deliver1 P i t k) /\ lifted ((fun _ => NPW) (S i)) k (deliver1 P i t k).
   Proof.
-    intros Hi Hk HG (A1 & A2 & A3 & A4 & A5). pose proof HG as (HN & _).
+    intros Hi Hk HG (A1 & A2 & A3 & A4 & A5 & A6). pose proof HG as (HN & _).
     destruct (snapshot_nth P pay fetch s V Bs tHB_s t i HN Hi) as (m & Hnt & Hns & Hin & Hkm).
     assert (Hlive : live_node P t k = true) by (unfold live_node; rewrite Hk; exact A1).
     unfold deliver1. rewrite Hlive, Hnt.
@@ -124,8 +132,10 @@ Section TimeoutRounds.
     { rewrite Hsoup, (sends_of_quiet k es (only_queue_no_sends es Hoq)). apply app_nil_r. }
     split; [exact (GAT_same t t' HG HN' Hsoup')|].
     unfold lifted, NPW. rewrite Hl'. split; [exact Ha'|]. split; [congruence|]. split; [congruence|]. split; [lia|].
-    pose proof (TV_step hon Sg (cfg k) _ (IMsg m) Hinv A5) as Htv. rewrite Es in Htv. apply Htv.
-    intros m' Em. inversion Em; subst m'. exact Hin.
+    split.
+    - pose proof (TV_step hon Sg (cfg k) _ (IMsg m) Hinv A5) as Htv. rewrite Es in Htv. apply Htv.
+      intros m' Em. inversion Em; subst m'. exact Hin.
+    - pose proof (TB_step (cfg k) _ (IMsg m) Hinv eq_refl A6) as Htb. rewrite Es in Htb. apply Htb. exact Hs.
   Qed.
 
   Lemma GAT_add t m : GAT t -> NSI P s Bs (add_msg t m) -> (forall c, m_msg m <> MCommit c) ->
@@ -161,9 +171,9 @@ Section TimeoutRounds.
     rewrite <- E1 in Hl'. rewrite <- E2 in Hsoup. clear Es E1 E2 E3.
     cbn [sends_of flat_map] in Hsoup. rewrite app_nil_r in Hsoup.
     split; [exact (GAT_same t _ HG HN' Hsoup)|].
-    destruct HW as (A & B & C & D & E0). unfold lifted, NPW. rewrite Hl'.
+    destruct HW as (A & B & C & D & E0 & E1). unfold lifted, NPW. rewrite Hl'.
     cbn [set_store_next r_view r_phase r_store_next]. split; [exact Ha'|]. split; [exact B|]. split; [exact C|].
-    split; [unfold nn; lia|]. intros h0 v Hh Hg. exact (E0 h0 v Hh Hg).
+    split; [unfold nn; lia|]. split; [intros h0 v Hh Hg; exact (E0 h0 v Hh Hg)|exact E1].
   Qed.
 
   Lemma sync_nodeW f fuel : forall t k, hon k = true -> GAT t -> lifted NPW k t ->
@@ -187,10 +197,10 @@ Section TimeoutRounds.
   Definition tmsg_of (k : Z) (t0 : timeout) : sgmsg := {| m_key := k; m_sig_ok := true; m_msg := MTimeout t0 |}.
   Definition NPT' (k : Z) (soup : list sgmsg) (nd : node) : Prop :=
     n_alive nd = true /\ r_view (n_live nd) = V /\ r_phase (n_live nd) = PTimeout /\
-    n <= r_store_next (n_live nd) /\ TV hon Sg (n_live nd) /\
+    n <= r_store_next (n_live nd) /\ TV hon Sg (n_live nd) /\ TB (cfg k) (n_live nd) /\
     exists t0, In (tmsg_of k t0) soup /\ vnum (tview t0) = V.
   Lemma NPT'_mono : mono NPT'.
-  Proof. intros k soup soup' nd Hi (A&B&C&D&E&t0&F&G). repeat split; auto. exists t0. auto. Qed.
+  Proof. intros k soup soup' nd Hi (A&B&C&D&E&E'&t0&F&G). repeat split; auto. exists t0. auto. Qed.
 
   Lemma ts_view k : hon k = true -> r_view (n_live (g_node s k)) = V.
   Proof. intros Hk. destruct (Hal k Hk) as (_ & Hv & _). exact Hv. Qed.
@@ -198,7 +208,7 @@ Section TimeoutRounds.
   Lemma timerW t k : hon k = true -> GAT t -> lifted NPW k t ->
     GAT (timer1 P s t k) /\ lifted NPT' k (timer1 P s t k).
   Proof.
-    intros Hk (HN & HC2 & HT2) (A & B & C & D & E0).
+    intros Hk (HN & HC2 & HT2) (A & B & C & D & E0 & ETB).
     assert (Hlive : live_node P t k = true) by (unfold live_node; rewrite Hk; exact A).
     unfold timer1. rewrite Hlive, B, (ts_view k Hk), Z.eqb_refl. cbn [andb].
     destruct (input_facts P HP pay fetch Hfirst s Hr V Bs tHB_s Hh1 Hh2 Hle t k ITimer HN Hk I)
@@ -223,6 +233,7 @@ Section TimeoutRounds.
       + cbn in Hin0. destruct Hin0 as [<-|[<-|[]]]; [discriminate Em|]. cbn [m_msg] in Em. inversion Em; subst t1. auto.
     - unfold lifted, NPT'. rewrite Hsoup, Hl'. cbn [set_phase r_view r_phase r_store_next].
       split; [exact Ha'|]. split; [exact B|]. split; [reflexivity|]. split; [exact D|]. split; [exact E0|].
+      split; [exact ETB|].
       exists t0. split; [|exact EV0]. apply in_or_app. right. cbn. right. left. reflexivity.
   Qed.
 
@@ -393,39 +404,31 @@ Section TimeoutRounds.
   Lemma sW_RInv : RInv P Sg sW.
   Proof. destruct after_timersW as [((H & _) & _) _]. exact H. Qed.
 
-  Lemma no_tmsg_in_Sg h t0 : hon h = true -> In (tmsg_of h t0) Sg -> vnum (tview t0) < V.
-  Proof.
-    intros Hh Hin. apply (no_timeout_msg_at P HP s h t0 V Hr); [|exact Hh|exact Hin].
-    intros k Hk. right. destruct (ts_pos k Hk) as [E1 E2]. split; [exact E1|rewrite E2; discriminate].
-  Qed.
-
   Lemma NPBT_start k : hon k = true -> lifted (NPBT 0%nat) k sW.
   Proof.
-    intros Hk. destruct after_timersW as [_ HN]. destruct (HN k Hk) as (A & B & C & D & E0 & _).
+    intros Hk. destruct after_timersW as [_ HN]. destruct (HN k Hk) as (A & B & C & D & E0 & ETB & _).
     unfold lifted, NPBT. right. split; [exact A|]. split; [|intros h i0 t0 _ Hlt; lia].
     pose proof (fi_certs _ _ _ sW_FI k Hk) as K.
     destruct (node_certs_good P Sg sW k sW_RInv Hk A) as [Hgq Hgt].
     split; [exact B|]. split; [exact C|]. split; [exact D|]. split; [|split; [|split]].
     - intros q Hq. apply tHcq_s. exact (Hgq q Hq).
     - intros tq Htq. destruct (Hgt tq Htq) as [Hv Hkt]. exact (tHtq_s tq Hv Hkt).
-    - intros h Hh. left. unfold RC.fresh.
-      destruct (zmap_get (r_timeout_views (n_live (g_node sW k))) h) as [v'|] eqn:Ev; [|reflexivity].
-      destruct (E0 h v' Hh Ev) as (t0 & Et & Hin). pose proof (no_tmsg_in_Sg h t0 Hh Hin). apply Z.leb_gt. lia.
+    - intros h Hh. unfold RC.fresh.
+      destruct (zmap_get (r_timeout_views (n_live (g_node sW k))) h) as [v'|] eqn:Ev; [|left; reflexivity].
+      destruct (E0 h v' Hh Ev) as (t0 & Et & Hin).
+      destruct (Z.lt_ge_cases v' V) as [Hlt|Hge]; [left; apply Z.leb_gt; lia|right].
+      destruct (HGT _ t0 Hin eq_refl Hh eq_refl ltac:(lia)) as [EV0 _].
+      rewrite Et in EV0. rewrite EV0 in Ev. apply ETB; [exact Ev|lia].
     - intros t0 Ht0.
       destruct (preach_LI P sW sW_reach k) as [_ HI]. destruct (HI A) as (Hci & _).
-      destruct (RC.cache_inv_timeout_qc (cfg k) _ V t0 Hci Ht0) as (Hti & HvV & _). cbn [cg ce cC pcfg] in Hti.
-      pose proof (co_tcache _ _ _ _ K V t0 (RC.zmap_get_in _ _ _ Ht0)) as [[Hkt _] _].
-      unfold tq_weight. cbn [cC pcfg]. apply (tqc_byz_light P HP t0 Hti).
-      intros en i Hin Hi. destruct (abyz P i) eqn:Eb; [reflexivity|]. exfalso.
-      assert (Hh : SafetyAbs.honest (cweights (p_C P)) (abyz P) i).
-      { split; [|exact Eb]. unfold SafetyAbs.member. rewrite (W_length P).
-        pose proof (tqc_inv_lengths _ _ _ _ Hti) as Hlen. rewrite Forall_forall in Hlen. rewrite <- (Hlen en Hin).
-        apply nth_error_Some. congruence. }
-      pose proof (tsigner_sig_inv P t0 en i Hti Hin Hi) as Hsig.
-      pose proof (Hkt _ _ Hsig (honest_key P i Hh)) as Hsent.
-      pose proof (no_tmsg_in_Sg _ _ (honest_key P i Hh) Hsent) as Hlt.
-      destruct Hti as (Hen & _). rewrite Forall_forall in Hen. destruct (Hen en Hin) as (Htv & _).
-      rewrite Htv, HvV in Hlt. lia.
+      destruct (RC.cache_inv_timeout_qc (cfg k) _ V t0 Hci Ht0) as (Hti & HvV & Hvo). cbn [cg ce cC pcfg] in Hti, Hvo.
+      pose proof (co_tcache _ _ _ _ K V t0 (RC.zmap_get_in _ _ _ Ht0)) as [Hkt _].
+      destruct (Z.lt_ge_cases (tq_weight (cfg k) t0) (quorum (p_C P))) as [Hlt|Hge]; [exact Hlt|exfalso].
+      destruct (tqc_inv_verify_weight unit _ _ _ t0 Hti) as (w & Hw & Hiff).
+      rewrite (tqc_weight_union unit _ _ _ t0 Hti) in Hw. inversion Hw; subst w.
+      assert (Hver : tqc_verify (p_g P) (p_e P) (p_C P) t0 = Ok tt).
+      { apply Hiff. split; [exact Hvo|]. unfold tq_weight in Hge. cbn [cC pcfg] in Hge. exact Hge. }
+      pose proof (tHtq_s t0 Hver Hkt). lia.
   Qed.
 
   Definition tT1 := deliver_all P sW.
@@ -439,7 +442,7 @@ Section TimeoutRounds.
     destruct (preach_LI P tT1 Hrt k) as [_ HI]. destruct (HI A) as (Hci & _).
     apply (collT_full_contra P HP V n Sg tHtq_s k _ Hci HC).
     - exists k. exact Hk.
-    - intros h Hh. destruct after_timersW as [_ HN]. destruct (HN h Hh) as (_ & _ & _ & _ & _ & t0 & Hin & EV0).
+    - intros h Hh. destruct after_timersW as [_ HN]. destruct (HN h Hh) as (_ & _ & _ & _ & _ & _ & t0 & Hin & EV0).
       apply In_nth_error in Hin. destruct Hin as [i0 Hi0].
       apply (Hbits h i0 t0 Hh); [|exact Hi0|exact EV0]. apply nth_error_Some. congruence.
   Qed.
@@ -567,7 +570,7 @@ Section TimeoutRounds.
   Lemma two_roundsT : sync_rounds P pay fetch 2 s = sT.
   Proof. cbn [sync_rounds]. rewrite sW_round. reflexivity. Qed.
 
-  Theorem timeout_two_rounds_post :
+  Theorem timeout_mixed_post :
     let s2 := sync_rounds P pay fetch 2 s in
     preach P s2 /\ (forall m, In m (g_soup s2) -> msg_view (m_msg m) <= Bs) /\
     (forall k, hon k = true ->
@@ -690,6 +693,9 @@ Section TimeoutRounds.
 
   Hypothesis HT0 : forall q, gq (cfg 0) hon Sg q -> hnum (cprop (qmsg q)) < n.
   Hypothesis HX : forall k, hon k = true -> tidy_node P n (live s k).
+  (* the honest nodes that have already timed out in view V reported nothing above block n-1 *)
+  Hypothesis HXT : forall m t0, In m Sg -> m_sig_ok m = true -> hon (m_key m) = true -> m_msg m = MTimeout t0 ->
+    vnum (tview t0) = V -> tidy_report P n t0.
 
   (* honest commit votes on the network are those of the start; honest timeout votes for view V
      carry tidy reports *)
@@ -701,8 +707,7 @@ Section TimeoutRounds.
   Lemma EG_start : EG s.
   Proof.
     split; [intros m c Hin _ _ _; exact Hin|].
-    intros m t0 Hin Hsg Hh Em EV0. exfalso. rewrite (eta_msg m Hsg), Em in Hin.
-    pose proof (no_tmsg_in_Sg (m_key m) t0 Hh Hin). lia.
+    exact HXT.
   Qed.
 
   Lemma EG_T0 t : EG t -> forall q, gq (cfg 0) hon (g_soup t) q -> hnum (cprop (qmsg q)) < n.
@@ -803,7 +808,7 @@ Section TimeoutRounds.
   Proof. intros HN HB0 Hk Hi. destruct (deliver1_absorb s0 t k i HN HB0 Hk Hi) as (m & E & Hri). right; right. eauto. Qed.
 
   Lemma ph_W t0 k : lifted NPW k t0 -> r_phase (live t0 k) <> PCommit.
-  Proof. intros (_ & _ & H & _). rewrite H. discriminate. Qed.
+  Proof. intros (_ & _ & H & _). exact H. Qed.
   Lemma ph_T' t0 k : lifted NPT' k t0 -> r_phase (live t0 k) <> PCommit.
   Proof. intros (_ & _ & H & _). rewrite H. discriminate. Qed.
 
@@ -902,7 +907,7 @@ Section TimeoutRounds.
   Qed.
 
   (* what the tidy hypotheses add to the result of the two rounds *)
-  Theorem timeout_two_rounds_tidy :
+  Theorem timeout_mixed_tidy :
     let s2 := sync_rounds P pay fetch 2 s in
     (forall q, gq (cfg 0) hon (g_soup s2) q -> hnum (cprop (qmsg q)) < n) /\
     (forall k, hon k = true -> tidy_node P n (live s2 k)) /\
@@ -914,3 +919,74 @@ Section TimeoutRounds.
     intros h m Hh Hin EV0. destruct HE as [_ H2]. exact (H2 _ m Hin eq_refl Hh eq_refl EV0).
   Qed.
 End TimeoutRounds.
+
+(* the case in which every honest node still waits for a proposal: the three hypotheses on the
+   votes on the network hold by themselves *)
+Section TimeoutRoundsPrepare.
+  Variable P : params.
+  Hypothesis HP : params_ok P.
+  Variable pay : Z -> Z.
+  Variable fetch : gstate -> Z -> option cqc.
+  Hypothesis Henv : env_ok P pay.
+  Notation hon := (honestb P).
+  Notation cfg := (pcfg P).
+  Variables (V n : Z).
+  Hypothesis HV : 0 < V.
+  Variable s : gstate.
+  Hypothesis Hr : preach P s.
+  Variable Bs : Z.
+  Hypothesis Hh1 : p_first P + V + 2 < U64.
+  Hypothesis Hh2 : Bs + 1 < U64.
+  Hypothesis Hle : V + 1 <= Bs.
+  Hypothesis Hsb : forall m, In m (g_soup s) -> msg_view (m_msg m) <= Bs.
+  Hypothesis Hal : forall k, hon k = true ->
+    up s k /\ hview s k = V /\ r_phase (n_live (g_node s k)) = Prepare /\ n <= r_store_next (n_live (g_node s k)).
+  Hypothesis HnoP : forall m p' j' mv', In m (g_soup s) -> m_msg m = MProposal p' j' ->
+    justification_view (E := unit) true j' = Ok mv' -> vnum mv' = V ->
+    justification_verify (p_g P) (p_e P) (p_C P) j' = Ok tt -> False.
+  Notation Sg := (g_soup s).
+  Notation L' := (cleader (cfg 0) (V + 1)).
+  Notation live t k := (n_live (g_node t k)).
+
+  Lemma tp_pos k : hon k = true -> dview s k = V /\ dphase s k = Prepare.
+  Proof.
+    intros Hk. destruct (Hal k Hk) as (Hu & Hv & Hp & _).
+    rewrite (up_dview P HP s k Hr Hk Hu), (up_dphase P HP s k Hr Hk Hu). auto.
+  Qed.
+  Lemma tp_al k : hon k = true ->
+    up s k /\ hview s k = V /\ r_phase (n_live (g_node s k)) <> PCommit /\ n <= r_store_next (n_live (g_node s k)).
+  Proof. intros Hk. destruct (Hal k Hk) as (A & B & C & D). repeat split; auto. rewrite C. discriminate. Qed.
+  Lemma tp_eta (m : sgmsg) : m_sig_ok m = true -> m = {| m_key := m_key m; m_sig_ok := true; m_msg := m_msg m |}.
+  Proof. destruct m as [a b c]. cbn. intros ->. reflexivity. Qed.
+  Lemma tp_GC m c : In m Sg -> m_sig_ok m = true -> hon (m_key m) = true -> m_msg m = MCommit c -> vnum (cview c) < V.
+  Proof.
+    intros Hin Hsg Hh Em. rewrite (tp_eta m Hsg), Em in Hin.
+    exact (no_commit_msg_at P HP s (m_key m) c V Hr (fun k Hk => or_intror (tp_pos k Hk)) Hh Hin).
+  Qed.
+  Lemma tp_noT m t0 : In m Sg -> m_sig_ok m = true -> hon (m_key m) = true -> m_msg m = MTimeout t0 -> vnum (tview t0) < V.
+  Proof.
+    intros Hin Hsg Hh Em. rewrite (tp_eta m Hsg), Em in Hin.
+    apply (no_timeout_msg_at P HP s (m_key m) t0 V Hr); [|exact Hh|exact Hin].
+    intros k Hk. right. destruct (tp_pos k Hk) as [E1 E2]. split; [exact E1|rewrite E2; discriminate].
+  Qed.
+  Lemma tp_GT m t0 : In m Sg -> m_sig_ok m = true -> hon (m_key m) = true -> m_msg m = MTimeout t0 ->
+    V <= vnum (tview t0) -> vnum (tview t0) = V /\ timeout_verify (p_g P) (p_e P) (p_C P) t0 = Ok tt.
+  Proof. intros Hin Hsg Hh Em HVt. pose proof (tp_noT m t0 Hin Hsg Hh Em). lia. Qed.
+  Lemma tp_tq t : tqc_verify (p_g P) (p_e P) (p_C P) t = Ok tt -> kt hon Sg t -> vnum (tqview t) < V.
+  Proof.
+    apply (no_tqc_at P HP s t V Hr). intros k Hk. right. destruct (tp_pos k Hk) as [E1 E2].
+    split; [exact E1|rewrite E2; discriminate].
+  Qed.
+
+  Definition timeout_two_rounds_post :=
+    timeout_mixed_post P HP pay fetch Henv V n HV s Hr Bs Hh1 Hh2 Hle Hsb tp_al HnoP tp_GC tp_GT tp_tq.
+
+  Hypothesis HT0 : forall q, gq (cfg 0) hon Sg q -> hnum (cprop (qmsg q)) < n.
+  Hypothesis HX : forall k, hon k = true -> tidy_node P n (live s k).
+  Lemma tp_XT m t0 : In m Sg -> m_sig_ok m = true -> hon (m_key m) = true -> m_msg m = MTimeout t0 ->
+    vnum (tview t0) = V -> tidy_report P n t0.
+  Proof. intros Hin Hsg Hh Em EV0. pose proof (tp_noT m t0 Hin Hsg Hh Em). lia. Qed.
+
+  Definition timeout_two_rounds_tidy :=
+    timeout_mixed_tidy P HP pay fetch Henv V n HV s Hr Bs Hh1 Hh2 Hle Hsb tp_al HnoP tp_GC tp_GT tp_tq HT0 HX tp_XT.
+End TimeoutRoundsPrepare.
